@@ -33,6 +33,8 @@
 //!   null-free batches (the common case) stay on the fused path, where
 //!   both logics coincide.
 //! - f64 division by zero produces ±inf/NaN in both paths (never null).
+//! - f64 comparisons use the total order (`f64::total_cmp`), like arrow's
+//!   comparison kernels: NaN sorts above +inf and -0.0 below +0.0.
 //! - numeric comparisons require identical arrow types on both sides;
 //!   anything the interpreter would coerce falls back to the interpreter.
 //!
@@ -410,6 +412,16 @@ impl Compiler {
     }
 }
 
+/// The integer whose natural order is `f64::total_cmp` (the same bit trick
+/// std uses): what arrow's comparison kernels — the interpreter — order
+/// Float64 by. IEEE `<`/`==` would drop NaN from `f > x` and equate -0.0
+/// with +0.0, so QE_COMPILE=0 could change a query's rows.
+#[inline(always)]
+fn total_order_key(v: f64) -> i64 {
+    let bits = v.to_bits() as i64;
+    bits ^ ((((bits >> 63) as u64) >> 1) as i64)
+}
+
 fn lit_f64(v: &ScalarValue) -> Option<f64> {
     match v {
         ScalarValue::Float64(x) => Some((*x).into()),
@@ -581,27 +593,34 @@ impl CompiledPredicate {
             Scalar(i32),
         }
 
+        // `$key` maps an operand to the value actually compared: the
+        // identity for integers, `total_order_key` for f64 — arrow's
+        // comparison kernels (the interpreter) order floats by `total_cmp`
+        // (NaN above +inf, -0.0 below +0.0), not by IEEE `<`/`==`.
         macro_rules! cmp_shapes {
-            ($a:expr, $b:expr, $dst:expr, $OpTy:ident, $cmp:tt) => {{
+            ($a:expr, $b:expr, $dst:expr, $OpTy:ident, $cmp:tt, $key:expr) => {{
                 let d = &mut m[$dst as usize];
+                let key = $key;
                 match ($a, $b) {
                     ($OpTy::Slice(x), $OpTy::Slice(y)) => {
                         for i in 0..len {
-                            d[i] = (x[i] $cmp y[i]) as u8;
+                            d[i] = (key(x[i]) $cmp key(y[i])) as u8;
                         }
                     }
                     ($OpTy::Slice(x), $OpTy::Scalar(y)) => {
+                        let y = key(y);
                         for i in 0..len {
-                            d[i] = (x[i] $cmp y) as u8;
+                            d[i] = (key(x[i]) $cmp y) as u8;
                         }
                     }
                     ($OpTy::Scalar(x), $OpTy::Slice(y)) => {
+                        let x = key(x);
                         for i in 0..len {
-                            d[i] = (x $cmp y[i]) as u8;
+                            d[i] = (x $cmp key(y[i])) as u8;
                         }
                     }
                     ($OpTy::Scalar(x), $OpTy::Scalar(y)) => {
-                        let v = (x $cmp y) as u8;
+                        let v = (key(x) $cmp key(y)) as u8;
                         d[..len].fill(v);
                     }
                 }
@@ -610,14 +629,14 @@ impl CompiledPredicate {
         // The operator match happens ONCE per chunk; every inner loop is
         // monomorphic and vectorizes.
         macro_rules! cmp_loop {
-            ($a:expr, $b:expr, $op:expr, $dst:expr, $OpTy:ident) => {{
+            ($a:expr, $b:expr, $op:expr, $dst:expr, $OpTy:ident, $key:expr) => {{
                 match $op {
-                    Cmp::Eq => cmp_shapes!($a, $b, $dst, $OpTy, ==),
-                    Cmp::Ne => cmp_shapes!($a, $b, $dst, $OpTy, !=),
-                    Cmp::Lt => cmp_shapes!($a, $b, $dst, $OpTy, <),
-                    Cmp::Le => cmp_shapes!($a, $b, $dst, $OpTy, <=),
-                    Cmp::Gt => cmp_shapes!($a, $b, $dst, $OpTy, >),
-                    Cmp::Ge => cmp_shapes!($a, $b, $dst, $OpTy, >=),
+                    Cmp::Eq => cmp_shapes!($a, $b, $dst, $OpTy, ==, $key),
+                    Cmp::Ne => cmp_shapes!($a, $b, $dst, $OpTy, !=, $key),
+                    Cmp::Lt => cmp_shapes!($a, $b, $dst, $OpTy, <, $key),
+                    Cmp::Le => cmp_shapes!($a, $b, $dst, $OpTy, <=, $key),
+                    Cmp::Gt => cmp_shapes!($a, $b, $dst, $OpTy, >, $key),
+                    Cmp::Ge => cmp_shapes!($a, $b, $dst, $OpTy, >=, $key),
                 }
             }};
         }
@@ -685,7 +704,7 @@ impl CompiledPredicate {
                         Src::Reg(r) => FOp::Slice(&f[*r as usize][..len]),
                         other => resolve(other),
                     };
-                    cmp_loop!(a_op, b_op, op, *dst, FOp);
+                    cmp_loop!(a_op, b_op, op, *dst, FOp, total_order_key);
                 }
                 Instr::CmpI64 { a, b, op, dst } => {
                     let resolve = |src: &Src| -> IOp<'_> {
@@ -699,7 +718,7 @@ impl CompiledPredicate {
                         }
                     };
                     let (a_op, b_op) = (resolve(a), resolve(b));
-                    cmp_loop!(a_op, b_op, op, *dst, IOp);
+                    cmp_loop!(a_op, b_op, op, *dst, IOp, |v: i64| v);
                 }
                 Instr::CmpI32 { a, b, op, dst } => {
                     let resolve = |src: &Src| -> I32Op<'_> {
@@ -716,7 +735,7 @@ impl CompiledPredicate {
                         }
                     };
                     let (a_op, b_op) = (resolve(a), resolve(b));
-                    cmp_loop!(a_op, b_op, op, *dst, I32Op);
+                    cmp_loop!(a_op, b_op, op, *dst, I32Op, |v: i32| v);
                 }
                 Instr::And { a, b, dst } => {
                     let (ops, dsts) = m.split_at_mut(*dst as usize);
